@@ -281,6 +281,20 @@ def install():
     _io.open = w
     _real["fcntl.flock"] = fcntl.flock
     fcntl.flock = _flock
+    import time as _time
+    _real["time.sleep"] = _time.sleep
+
+    def _sleep(seconds):
+        ctl = _active()
+        handler = getattr(ctl, "on_sleep", None) if ctl is not None else None
+        if handler is None:
+            return _real["time.sleep"](seconds)
+        _tls.busy += 1
+        try:
+            return handler(seconds)
+        finally:
+            _tls.busy -= 1
+    _time.sleep = _sleep
 
 
 def real(name):
